@@ -244,7 +244,7 @@ func ruleNODESOURCES(c *Ctx, r *Report) {
 				hasField := false
 				copied := false
 				for _, ref := range *a.Referrers() {
-					if st, ok := ref.(*ssa.Store); ok && st.Addr == ssa.Value(a) {
+					if st, ok := ref.(*ssa.Store); ok && st.Addr == ssa.Value(a) && !selfCopy(st) {
 						copied = true // a copy of an existing token (e.g. a spilled parameter), not a fabrication
 					}
 				}
@@ -617,6 +617,12 @@ func (c *Ctx) isCountingLoop(h *ssa.BasicBlock) bool {
 					bound = nil
 				}
 			}
+			// len of a package-level table that is only written by the package initialiser
+			if ld, ok := a.(*ssa.UnOp); ok && bound != nil {
+				if g, ok := ld.X.(*ssa.Global); ok && g.Pkg != nil && c.onlyInitWrites(g) {
+					bound = nil
+				}
+			}
 		}
 	}
 	if bound != nil && !inv(bound) {
@@ -661,6 +667,24 @@ func (c *Ctx) isCountingLoop(h *ssa.BasicBlock) bool {
 		m, ok := minInc(ph.Edges[i], 0)
 		if !ok || m <= 0 {
 			return false
+		}
+	}
+	return true
+}
+
+// onlyInitWrites: the package-level variable is stored to (directly) only in its package's initialiser.
+func (c *Ctx) onlyInitWrites(g *ssa.Global) bool {
+	init := g.Pkg.Func("init")
+	for _, f := range c.Funcs {
+		if f == init {
+			continue
+		}
+		for _, b := range f.Blocks {
+			for _, in := range b.Instrs {
+				if st, ok := in.(*ssa.Store); ok && st.Addr == ssa.Value(g) {
+					return false
+				}
+			}
 		}
 	}
 	return true
@@ -750,6 +774,10 @@ func (c *Ctx) isRangeHeader(h *ssa.BasicBlock) bool {
 							if bi, ok := call.Call.Value.(*ssa.Builtin); ok && bi.Name() == "len" {
 								return true
 							}
+						}
+						// range over an array: the bound is the array's constant length
+						if _, isC := constIntVal(bo.Y); isC {
+							return true
 						}
 					}
 				}
@@ -916,12 +944,20 @@ func ruleREC(c *Ctx, r *Report) {
 					if isEmptyInterface(a.Type()) || isExprPtr(a.Type()) {
 						k := c.key(a, nil)
 						e.arg = k
-						e.ok = strings.HasPrefix(k, "$")
-						rest := k
-						if len(k) >= 2 {
-							rest = k[2:]
+						alts := []string{k}
+						if strings.HasPrefix(k, "elem{") && strings.HasSuffix(k, "}") {
+							alts = strings.Split(k[5:len(k)-1], "|") // one of the values of a local array literal
 						}
-						e.strict = e.ok && (strings.Contains(rest, ".Left") || strings.Contains(rest, ".Right") || strings.Contains(rest, ".Min") || strings.Contains(rest, ".Max") || strings.Contains(rest, "["))
+						e.ok, e.strict = true, true
+						for _, alt := range alts {
+							okAlt := strings.HasPrefix(alt, "$")
+							rest := alt
+							if len(alt) >= 2 {
+								rest = alt[2:]
+							}
+							e.ok = e.ok && okAlt
+							e.strict = e.strict && okAlt && (strings.Contains(rest, ".Left") || strings.Contains(rest, ".Right") || strings.Contains(rest, ".Min") || strings.Contains(rest, ".Max") || strings.Contains(rest, "["))
+						}
 						break
 					}
 				}
@@ -1276,7 +1312,7 @@ func ruleTOKIMMUTABLE(c *Ctx, r *Report) {
 				if a, ok := fa.X.(*ssa.Alloc); ok {
 					fresh = true
 					for _, ref := range *a.Referrers() {
-						if s2, ok := ref.(*ssa.Store); ok && s2.Addr == ssa.Value(a) {
+						if s2, ok := ref.(*ssa.Store); ok && s2.Addr == ssa.Value(a) && !selfCopy(s2) {
 							fresh = false // a copy of an existing token
 						}
 					}
